@@ -133,7 +133,16 @@ def cases(rng, tier):
              ("TS2(1, 2)", "TS2(_)", False), ("TS2(1, 2)", "TS2(_, _, _)", False), ("(1, 2, 3)", "(_, _)", False), ("(1, 2)", "(_, _, _)", False),
              ("Some(E::P2(1, 2))", "Some(E::P2(_))", False), ("vec![E::P2(1, 2)]", "[E::P2(_)]", False),
              ("Outer { inner: E::P2(1, 2), n: 1 }", "Outer { inner: E::P2(_), .. }", False), ("(E::P2(1, 2), 1)", "(E::P2(_, _, _), _)", False),
-             ("Some((1, 2))", "Some((1, 2, 3))", False), ("vec![(1, 2)]", "[(1,)]", False), ("vec![E::P2(1, 2)]", "#(E::P2(1))", False)]
+             ("Some((1, 2))", "Some((1, 2, 3))", False), ("vec![(1, 2)]", "[(1,)]", False), ("vec![E::P2(1, 2)]", "#(E::P2(1))", False),
+             # an all-wildcard PLAIN tuple nested directly in another tuple, a variant, a slice, a set or behind an index: its arity
+             # (and that the value is a tuple at all) must still be checked
+             ("Some((1, 2, 3))", "Some((_, _))", False), ("Some((1, 2, 3))", "Some((_, _, _))", True), ("Some((1, 2, 3))", "Some((_, _, _, _))", False),
+             ("((1, 2, 3), 9)", "((_, _), 9)", False), ("((1, 2, 3), 9)", "((_, _, _), 9)", True), ("((1, 2, 3), 9)", "((_, _), _)", False),
+             ("((1, 2, 3), 9)", "(0: (_, _), 1: 9)", False), ("((1, 2, 3), 9)", "(0: (_, _, _), 1: 9)", True),
+             ("vec![(1, 2, 3)]", "[(_, _), ..]", False), ("vec![(1, 2, 3)]", "[(_, _, _)]", True), ("vec![(1, 2, 3)]", "#((_, _))", False),
+             ("vec![(1, 2, 3)]", "#((_, _, _))", True), ("Some(5)", "Some((_, _))", False), ("(((1, 2), 3), 4)", "(((_, _, _), _), _)", False),
+             ("(((1, 2), 3), 4)", "(((_, _), _), _)", True), ("Ok::<(i32, i32), String>((1, 2))", "Ok((_, _, _))", False),
+             ("Ok::<(i32, i32), String>((1, 2))", "Ok((_, _))", True)]
     for v, p, ok in arity:
         out.append(("arity: %s against %s" % (p, v), program(v, p), ok, "arity"))
     return out
